@@ -2209,6 +2209,10 @@ def create_library_from_dictionary(node):
         # list of dictionaries
         for subnode in node["typemap"]:
             # Update fields for a type. For example, set cpp_if
+            if "type" not in subnode or "fields" not in subnode:
+                raise RuntimeError(
+                    "typemap entries must define 'type' and 'fields' at line {}"
+                    .format(subnode.get("__line__", "?")))
             key = subnode["type"]
             fields = subnode["fields"]
             def_types = typemap.get_global_types()
